@@ -711,8 +711,10 @@ class PathProver:
         def wrapped(m):
             info = dict(on_cex(m))
             if info.get("block") is not None:
-                self.ab.extend([info["block"]])
-                info["block"] = self.ab.apply(info["block"])
+                ax = self.ab.extend([info["block"]])
+                blk = self.ab.apply(info["block"])
+                # the harness asserts Not(block): keep the axioms of terms that only the block mentions
+                info["block"] = z3.Or(blk, z3.Not(z3.And(*ax))) if ax else blk
             return info
         return wrapped
 
